@@ -60,7 +60,8 @@ def enc_value(x):
 
 
 WARM = 0   # bit mask: the operands built next are looked at first (1 .s, 2 str(), 4 .width, 8 len() / hash / width_at_offset);
-           # 16: equal runs of a value are one shared Chunk object (as f + f, f * n, join build them)
+           # 16: equal runs of a value are one shared Chunk object (as f + f, f * n, join build them);
+           # 32: the recorded call is the second identical call on the same operand objects (fmtlib._again)
 
 
 def warm(f, mask):
@@ -94,7 +95,7 @@ def build_fmtstr(runs):
         f = FmtStr(*(made.setdefault(json.dumps([t, a]), Chunk(dec_text(t), dec_atts(a))) for t, a in runs))
     else:
         f = FmtStr(*(Chunk(dec_text(t), dec_atts(a)) for t, a in runs))
-    return warm(f, WARM) if WARM else f
+    return warm(f, WARM) if WARM & 15 else f
 
 
 def build_value(v):
@@ -115,7 +116,8 @@ def lex(s):
        ["m", [p...]]                   SGR
        ["c", private, [p...], inter, final]   other CSI control function
        ["e", ch]                       ESC + one character (Fe/Fp/Fs)
-       ["x", "bad"]                    malformed / truncated sequence
+       ["i", "csi"]                    a complete but malformed CSI sequence that terminals ignore
+       ["x", "bad"]                    truncated / otherwise unreadable sequence
     """
     out = []
     i, n = 0, len(s)
@@ -149,8 +151,17 @@ def lex(s):
                         out.append(["c", private, ps, inter, final])
                 i = m + 1
             else:
-                out.append(["x", "bad"])
-                i = m
+                # a parameter byte after an intermediate byte (e.g. ESC[-2;4H): ECMA-48 does not allow it; terminals
+                # (xterm's CSI-ignore state) swallow the sequence up to its final byte and do nothing
+                q = m
+                while q < n and "\x20" <= s[q] <= "\x3f":
+                    q += 1
+                if inter and q > m and q < n and "\x40" <= s[q] <= "\x7e":
+                    out.append(["i", "csi"])
+                    i = q + 1
+                else:
+                    out.append(["x", "bad"])
+                    i = m
         elif c == "\x1b":
             if i + 1 < n:
                 out.append(["e", s[i + 1]])
